@@ -290,7 +290,8 @@ pub struct FcRun {
   pub packages: Vec<String>,
 }
 
-pub fn run_world(world: &FcWorld) -> FcRun {
+/// Builds the graph of a world exactly as the spec runner does (no fast check yet).
+pub fn build_graph(world: &FcWorld) -> (ModuleGraph, deno_graph::ast::CapturingModuleAnalyzer) {
   let loader = loader_for(&world.files);
   let o = &world.options;
   let mut graph = ModuleGraph::new(GraphKind::All);
@@ -339,6 +340,68 @@ pub fn run_world(world: &FcWorld) -> FcRun {
       ..Default::default()
     },
   ));
+  (graph, analyzer)
+}
+
+/// Export names of every emitted module as the REAL symbol API resolves them on a second graph in
+/// which each module that has fast-check output is served with that output as its source (other
+/// modules keep their original source).  None when that graph does not build.
+pub fn emitted_exports(world: &FcWorld, run: &FcRun) -> Option<BTreeMap<String, BTreeSet<String>>> {
+  let mut w2 = world.clone();
+  let emitted: BTreeMap<String, &str> = run
+    .modules
+    .iter()
+    .filter_map(|m| match &m.out {
+      FcOut::Emitted { text, .. } => Some((m.specifier.clone(), text.as_str())),
+      _ => None,
+    })
+    .collect();
+  for f in w2.files.iter_mut() {
+    let u = f.url().to_string();
+    if let Some(t) = emitted.get(&u) {
+      f.content = t.as_bytes().to_vec();
+    } else if u.ends_with("_meta.json") {
+      // checksums are recomputed for the replaced sources
+      if let Ok(mut v) = serde_json::from_slice::<BTreeMap<String, serde_json::Value>>(&f.content) {
+        v.remove("manifest");
+        v.remove("moduleGraph1");
+        v.remove("moduleGraph2");
+        f.content = serde_json::to_string(&v).unwrap().into_bytes();
+      }
+    }
+  }
+  w2.options.remote_checksums = None;
+  w2.options.pkg_checksums = None;
+  let filled = std::panic::catch_unwind(std::panic::AssertUnwindSafe(|| {
+    let mut w3 = w2.clone();
+    w3.fill_jsr_meta_files_with_checksums();
+    w3
+  }))
+  .ok()?;
+  let (graph, analyzer) = build_graph(&filled);
+  if graph.module_errors().next().is_some() {
+    return None;
+  }
+  let rs = deno_graph::symbols::RootSymbol::new(&graph, &analyzer);
+  let mut out = BTreeMap::new();
+  for spec in emitted.keys() {
+    let url = ModuleSpecifier::parse(spec).ok()?;
+    let r = std::panic::catch_unwind(std::panic::AssertUnwindSafe(|| {
+      rs.module_from_specifier(&url).map(|mi| mi.exports(&rs).resolved.keys().cloned().collect::<BTreeSet<String>>())
+    }));
+    match r {
+      Ok(Some(names)) => {
+        out.insert(spec.clone(), names);
+      }
+      _ => return None,
+    }
+  }
+  Some(out)
+}
+
+pub fn run_world(world: &FcWorld) -> FcRun {
+  let o = &world.options;
+  let (mut graph, analyzer) = build_graph(world);
   let graph_errors: Vec<String> = graph.module_errors().map(|e| e.to_string()).collect();
   let cache = if o.fast_check_cache { Some(MemFastCheckCache::default()) } else { None };
   let ran = graph_errors.is_empty();
@@ -637,6 +700,10 @@ pub fn seed_packages() -> Vec<(&'static str, PkgSrc)> {
     (
       "F-C10c parameter property with a leavable default and no annotation",
       one("const someIdent: number = 1;\nexport class K {\n  constructor(public x = someIdent, readonly y = [1, someIdent], protected z = 1) {}\n}\n"),
+    ),
+    (
+      "F-C11a optional parameter of function / constructor / conditional type before a required one",
+      one("export function f1(a: () => string = () => \"x\", b: number): void {}\nexport function f2(a: new () => Date = Date, b: number): void {}\nexport function f3<T>(a: T extends string ? 1 : 2 = 1 as any, b: number): void {}\nexport class C { m(a: () => string = () => \"x\", b: number): void {} }\n"),
     ),
     (
       "non-vacuity: every member kind",
